@@ -90,13 +90,11 @@ func (s *stressRound) violate(rule string, owners []string, format string, args 
 	s.vmu.Unlock()
 }
 
-var schedulerTexts = []string{
-	"disappeared while task was executing",
-	"Task no longer has any waiting clients",
-	"Attempted to execute task",
-	"Workers for this instance name, platform and size class disappeared while task was queued",
-	"killed by operator",
-}
+// schedulerCodes are the status codes of the errors the scheduler produces
+// itself (worker disappeared / queue removed, no waiting clients, retry
+// limit). Their wording is not part of the property; an operator's kill
+// carries the status the harness supplied ("killed by operator").
+var schedulerCodes = map[string]bool{"Unavailable": true, "Canceled": true, "Internal": true}
 
 // checkStream applies the per-stream rules of C02 to a finished stream.
 func (s *stressRound) checkStream(id string, msgs []Msg, err error, cancelled bool, retryAllowed bool) {
@@ -142,12 +140,7 @@ func (s *stressRound) checkStream(id string, msgs []Msg, err error, cancelled bo
 				s.violate("final-result-of-other-action", []string{"C02"}, "stream %s for digest %s got the response a worker submitted for digest %s", id, f.Digest, h)
 			}
 		} else {
-			known := false
-			for _, t := range schedulerTexts {
-				if strings.Contains(f.Text, t) {
-					known = true
-				}
-			}
+			known := (f.Code == "Aborted" && f.Text == "killed by operator") || (schedulerCodes[f.Code] && f.Text != "")
 			if !known {
 				s.violate("final-error-without-stated-cause", []string{"C02"}, "stream %s: final status %s %q is neither a worker response nor a scheduler error with a stated cause", id, f.Code, f.Text)
 			}
